@@ -57,7 +57,9 @@ def protoOfJson (j : Json) : Except String Proto := do
 partial def repOfJson (j : Json) : Except String Rep := do
   match ← getStr j "k" with
   | "array" => return .array (← getDType j "d") (← getNats j "dims") (← getNats j "elems")
-  | "arraybe" => return .arrayBE (← getDType j "d") (← getNats j "dims") (← getNats j "elems")
+  | "arraymem" =>
+    return .arrayMem (← getDType j "d") (← getNats j "dims") (← getNats j "mem") (← getBool j "be")
+      (← getBool j "nd")
   | "torch" =>
     -- either the elements, or a larger storage and the view's storage_offset
     match ← getOptNats j "storage" with
@@ -96,21 +98,22 @@ def rJ {α : Type} (f : α → Json) : R α → Json
   | .error e => obj [("raised", Json.str e)]
 
 def destOfJson (j : Json) : Except String Dest := do
-  return { img := ← getNats j "img", pos := ← getNat j "pos", append := ← getBool j "append" }
+  return { img := ← getNats j "img", pos := ← getNat j "pos", append := ← getBool j "append",
+           regular := ← getBool j "regular" }
 
-def observe (r : Rep) (dest : Option Dest) : Json :=
-  let base : List (String × Json) :=
-    [("dtype", rJ (fun d => toJson d.code) r.dtype), ("shape", natsJ r.shape),
-     ("nbytes", rJ (fun (n : Nat) => toJson n) r.nbytes), ("numpy", rJ natsJ r.numpy),
-     ("tobytes", rJ natsJ r.tobytes),
-     ("tofile", rJ (fun (p : List Nat × Bool) => obj [("bytes", natsJ p.1), ("raised", toJson p.2)])
-                  r.tofile),
-     ("serialize", rJ protoJ (serialize r))]
-  let d : List (String × Json) := match dest with
-    | none => []
-    | some f => [("dest", rJ (fun (p : Dest × Bool) =>
-        obj [("img", natsJ p.1.img), ("pos", toJson p.1.pos), ("raised", toJson p.2)]) (r.tofileAt f))]
-  obj (base ++ d)
+def destJ (r : Rep) (f : Dest) : Json :=
+  rJ (fun (p : Dest × Bool) =>
+    obj [("img", natsJ p.1.img), ("pos", toJson p.1.pos), ("raised", toJson p.2)]) (r.tofileAt f)
+
+/-- every observable of a representation, and `tofile` into each of the given destinations -/
+def observe (r : Rep) (dests : List Dest) : Json :=
+  obj [("dtype", rJ (fun d => toJson d.code) r.dtype), ("shape", natsJ r.shape),
+       ("nbytes", rJ (fun (n : Nat) => toJson n) r.nbytes), ("numpy", rJ natsJ r.numpy),
+       ("tobytes", rJ natsJ r.tobytes),
+       ("tofile", rJ (fun (p : List Nat × Bool) => obj [("bytes", natsJ p.1), ("raised", toJson p.2)])
+                    r.tofile),
+       ("serialize", rJ protoJ (serialize r)),
+       ("dests", Json.arr ((dests.map (destJ r)).toArray))]
 
 def codesJ (p : DType → Bool) : Json := natsJ ((DType.all.filter p).map DType.code)
 
@@ -150,15 +153,20 @@ def handle : Handler := fun m j =>
   | "trepr.tables" => some (pure tables)
   | "trepr.obs" => some do
       let r ← repOfJson (← j.getObjVal? "repr")
-      let dest ← match j.getObjVal? "dest" with
-        | .ok .null => pure none
-        | .ok d => do pure (some (← destOfJson d))
-        | .error _ => pure none
-      return observe r dest
+      let dests ← match j.getObjVal? "dests" with
+        | .ok (.arr ds) => ds.toList.mapM destOfJson
+        | _ => pure []
+      return observe r dests
   | "trepr.deserialize" => some do
       let p ← protoOfJson (← j.getObjVal? "proto")
       let file ← getFile j
-      return rJ (fun r => observe r none) (deserialize p file)
+      return rJ (fun r => observe r []) (deserialize p file)
+  | "pack.bits" => some do
+      let bits := bitStream (← getNats j "bs")
+      return obj [("r", Json.arr (bits.map (fun (b : Bool) => toJson b)).toArray)]
+  | "pack.elembits" => some do
+      let bits := elemStream (← getNat j "bw") (← getNats j "xs") (← getNat j "nb")
+      return obj [("r", Json.arr (bits.map (fun (b : Bool) => toJson b)).toArray)]
   | "trepr.packle" => some do
       return obj [("r", natsJ (packLE (← getNat j "bw") (← getNats j "xs")))]
   | _ => none
